@@ -268,6 +268,9 @@ def gen_scenario(rng, prof=None, force_selflock=None):
         for e_ in [spec['motor']] + spec['chain']:
             if rng.random() < 0.6:
                 e_['subclass'] = True                                  # a trivial user subclass of the element class
+    if rng.random() < 0.15:
+        for e_ in [spec['motor']] + spec['chain']:
+            e_['explicit_none'] = True                                 # absent optional data passed explicitly as None
     spec['failed_attempts'] = rng.randrange(1 << 30) if rng.random() < 0.25 else None     # rejected declarations after the design (sim/build.py)
     spec['touch_constants'] = rng.randrange(1 << 30) if rng.random() < p.get('p_touch_constants', 0.15) else None   # constants converted in place after assembly (sim/build.py)
     spec['order'] = rng.randrange(24)          # which of the legal orders of public calls the driver uses (see sim/build.py)
